@@ -4,6 +4,8 @@
 checks against it (VERIF_REPO), and store it under /verif/seeded/<prop>-<n>/."""
 import json, os, re, shutil, subprocess, sys, time
 
+HERE = os.path.dirname(os.path.dirname(os.path.abspath(__file__)))
+SEEDED = os.environ.get('SEEDED_DIR', '/verif/seeded')
 ENV = dict(os.environ, GOFLAGS='-mod=mod', GOPROXY='off', GOSUMDB='off', GOTOOLCHAIN='local')
 
 
@@ -62,7 +64,7 @@ def main():
         res['checks'] = {}
         for c in checks:
             t0 = time.time()
-            rc, out = sh(['/verif/check', c, 'quick'], env=dict(ENV, VERIF_REPO=wt), timeout=3000)
+            rc, out = sh([HERE + '/check', c, 'quick'], env=dict(ENV, VERIF_REPO=wt), timeout=3000)
             v = [l for l in out.splitlines() if l.startswith('VIOLATION')]
             res['checks'][c] = dict(exit=rc, violations=v[:4], with_input=any('no-failing-input-found' not in l for l in v), seconds=round(time.time() - t0, 1))
             res['ran'].append('VERIF_REPO=<scratch worktree with the change> ./check %s quick -> exit %d' % (c, rc))
@@ -70,9 +72,9 @@ def main():
         sh(['git', '-C', '/repo', 'worktree', 'remove', '--force', wt])
         shutil.rmtree(wt, ignore_errors=True)
     # regenerate the Lean facts for the real tree again (the check above regenerated them from the scratch tree)
-    sh(['/verif/.build/extract', '/repo', '/verif/lean/GoSnaps/Generated'])
+    sh([HERE + '/.build/extract', '/repo', HERE + '/lean/GoSnaps/Generated'])
     if res.get('confirmed'):
-        dst = '/verif/seeded/%s-%d' % (prop, int(n) + offset)
+        dst = '%s/%s-%d' % (SEEDED, prop, int(n) + offset)
         os.makedirs(dst, exist_ok=True)
         shutil.copy(diff, dst + '/patch.diff')
         shutil.copy(demo, dst + '/demo_test.go')
